@@ -119,9 +119,9 @@ def stepLine (s : Option St) (line : String) : Option St × String :=
       let res := match r.2 with
         | .ok o => outStr o
         | .error e => errStr e
-      let extra := match op with
-        | .flush _ => " | pub=" ++ serN r.1.pub
-        | _ => ""
+      let extra := match op, r.2 with
+        | .flush _, .ok _ => " | pub=" ++ serN r.1.pub
+        | _, _ => ""
       (some r.1, res ++ " | " ++ serL r.1.root ++ extra)
     | _, _ => (s, "bad-op")
 
